@@ -540,8 +540,11 @@ class StandardDecodeMixin(object):
         # Validate tag
         tag_data = data[start_offset:offset]
         if tag_data != self.tag:
-            # Check for missing data
-            if len(tag_data) != self.tag_len:
+            # Check for missing data: only a truncated tag is missing
+            # data, fewer octets that cannot be the beginning of this tag
+            # are simply another (shorter) tag
+            if (len(tag_data) != self.tag_len
+                    and self.tag[:len(tag_data)] == tag_data):
                 raise OutOfByteDataError('Ran out of data when reading tag',
                                          offset=start_offset)
             # return TAG_MISMATCH Instead of raising DecodeTagError for better performance so that MembersType does
@@ -624,8 +627,10 @@ class PrimitiveOrConstructedType(Type):
             is_primitive = True
         elif tag == self.constructed_tag:
             is_primitive = False
-        elif len(tag) != self.tag_len:
-            # Detect out of data
+        elif (len(tag) != self.tag_len
+              and tag in (self.tag[:len(tag)],
+                          self.constructed_tag[:len(tag)])):
+            # Detect out of data (a truncated tag, not another shorter one)
             raise OutOfByteDataError('Ran out of data when reading tag',
                                      offset=start_offset)
         else:
